@@ -2,7 +2,7 @@
 transmit_pending_security_pdus, reset_encryption; is_encrypted of the connection data; the GATT server's
 requires_encryption check)"""
 import itertools
-from vlib.core import Case, standard_check
+from vlib.core import Case, standard_check, compile_harness
 from props.ll_common import LLCheck, connected, connect_ind, ctrl, rnd_hex, session, any_pdu, le
 
 META = dict(
@@ -78,6 +78,32 @@ class C28(LLCheck):
         "(LLModel.l2cap_reply_enc); the server's own check is C05's",
     ]
 
+    GROUP_OPS = 80000      # operations per group of cases (8 harness processes per group; the runner gives a process 120 s)
+
+    def prepare(self, ctx, cases):
+        """LLCheck's groups (one binary per variant), cut into pieces that share the binary through the runner's cache"""
+        out = []
+        cache = ctx.__dict__.setdefault("hcache", {})
+        for key, extra, cs in LLCheck.prepare(self, ctx, cases):
+            pieces, cur, n = [], [], 0
+            for c in cs:
+                cur.append(c)
+                n += len(c.ops) + 1
+                if n >= self.GROUP_OPS:
+                    pieces.append(cur)
+                    cur, n = [], 0
+            if cur or not pieces:
+                pieces.append(cur)
+            if len(pieces) == 1:
+                out.append((key, extra, pieces[0]))
+                continue
+            if key not in cache:
+                cache[key] = compile_harness(ctx, self.harness, key, extra=extra)
+            for i, g in enumerate(pieces):
+                cache["%s#%d" % (key, i)] = cache[key]
+                out.append(("%s#%d" % (key, i), extra, g))
+        return out
+
     def generate(self, ctx):
         rng, mk = ctx.rng, self.mk
         cases = []
@@ -116,7 +142,8 @@ class C28(LLCheck):
             cases.append(mk("rnd", v, self.random_session(rng, v)))
         if ctx.thorough:
             for k in range(300):
-                cases.append(mk("rnd", "base", self.random_session(rng, "base")))
+                # no encryption support: the encryption PDUs are unknown PDUs; the read probe is only specified for the `enc` server
+                cases.append(mk("rnd", "base", [o.replace(" " + READ, "") for o in self.random_session(rng, "base")]))
         return cases
 
     def random_session(self, rng, v):
